@@ -256,3 +256,36 @@ B("B73", "C15-E3", [(MIN, '''                and not sd.node_data(node)["expande
                 return False''', '''            ):
                 # Size limit reached.
                 return False''')], "minimal-space expansion: size limit False on expanded node")
+
+
+# ------------------------------------------------------------------------------------------ C20
+B("B31", "C20-M1", [(SD, "        self._update_node_depth(child_id, parent_id)\n", "")], "_ensure_edge: depth update dropped")
+B("B31b", "C20-M1", [(SD, '''            self.dag.edges[parent_id, child_id]["all_motifs"].append(stable_motif)  # type: ignore
+        self._update_node_depth(child_id, parent_id)''', '''            self.dag.edges[parent_id, child_id]["all_motifs"].append(stable_motif)  # type: ignore
+            self._update_node_depth(child_id, parent_id)''')], "depth updated only when the edge already existed")
+B("B32", "C20-M1", [(SD, '''        if parent_depth + 1 > current_depth:
+            self.dag.nodes[node_id]["depth"] = parent_depth + 1''', '''        if parent_depth + 1 != current_depth:
+            self.dag.nodes[node_id]["depth"] = parent_depth + 1''')], "depth can decrease")
+B("B32b", "C20-M1", [(SD, '''            for child_id in list(self.dag.successors(node_id)):  # type: ignore
+                self._update_node_depth(child_id, node_id)''', '''            for child_id in list(self.dag.successors(node_id))[:1]:  # type: ignore
+                self._update_node_depth(child_id, node_id)''')], "depth propagated to the first successor only")
+B("B32c", "C20-M1", [(SD, '''            self.dag.nodes[node_id]["depth"] = parent_depth + 1
+            # The node''', '''            self.dag.nodes[node_id]["depth"] = current_depth + 1
+            # The node''')], "depth incremented instead of set to parent depth + 1")
+B("B33", "C20-M3", [(SPACE, "key |= (v + 2) << (2 * int(var))", "key |= (v + 2) << (1 * int(var))")], "key shift stride 1")
+V("V33b", "key codes 1/2 instead of 2/3 (still injective)", edits=[(SPACE, "key |= (v + 2) << (2 * int(var))", "key |= (v + 1) << (2 * int(var))")])
+B("B34", "C20-M5", [(SD, '''            if self.node_is_minimal(node):
+                space_str_prefix = "minimal trap space "''', '''            if self.dag.out_degree(node) == 0:  # type: ignore
+                space_str_prefix = "minimal trap space "''')], "summary labels by out-degree only")
+B("B74", "C20-M4", [(SD, "return self.is_subgraph(other) and other.is_subgraph(self)", "return self.is_subgraph(other) and len(self) == len(other)")],
+  "is_isomorphic checks one direction plus size")
+B("B75", "C20-M3", [(SD, '''            if key in self.node_indices:
+                return self.node_indices[key]
+            else:
+                return None''', '''            return self.node_indices.get(key, self.root() if not node_space else None)''')], "find_node falls back to the root")
+B("B76", "C20-M2", [(SD, '''        for i in range(len(self)):
+            yield i''', '''        for i in range(1, len(self)):
+            yield i''')], "node_ids skips the root")
+B("B77", "C20-M5", [(SD, "        for node_id in list(self.expanded_ids()):\n            self.node_attractor_seeds(node_id, compute=True)",
+                     "        for node_id in list(self.node_ids()):\n            self.node_attractor_seeds(node_id, compute=True)")],
+  "build computes seeds for stubs")
